@@ -416,7 +416,7 @@ func rulePoolsAppendOnly(c *Ctx, rule string) {
 		return strings.HasSuffix(t.String(), "[]*"+genPkg+".node") && !strings.HasPrefix(t.String(), "[][]") && !strings.HasPrefix(t.String(), "*")
 	}
 	n := 0
-	for _, fn := range withClosures(build) {
+	for _, fn := range family(L, build) {
 		for _, b := range fn.Blocks {
 			for _, in := range b.Instrs {
 				st, ok := in.(*ssa.Store)
@@ -431,6 +431,65 @@ func rulePoolsAppendOnly(c *Ctx, rule string) {
 					continue
 				}
 				n++
+				// the node's lane is recorded where it is assigned: the wait flags are computed from that record
+				if call, isC := st.Val.(*ssa.Call); isC {
+					if bi, isB := call.Common().Value.(*ssa.Builtin); isB && bi.Name() == "append" && len(call.Common().Args) == 2 {
+						if elems, okE := variadicElems(call.Common().Args[1]); okE && len(elems) == 1 {
+							recorded := false
+							for _, b2 := range fn.Blocks {
+								for _, in2 := range b2.Instrs {
+									mu, isMU := in2.(*ssa.MapUpdate)
+									if !isMU || mu.Map.Type().String() != "map[*"+genPkg+".node]int" {
+										continue
+									}
+									sameIdx := sameValueOrigin(mu.Value, ia.Index)
+									if ph, isPhi := resolve(mu.Value).(*ssa.Phi); isPhi {
+										// recorded after the branches join: the index on the branch that appended
+										for k, e := range ph.Edges {
+											pred := ph.Block().Preds[k]
+											if sameValueOrigin(e, ia.Index) && (pred == st.Block() || st.Block().Dominates(pred)) {
+												sameIdx = true
+											}
+										}
+									}
+									if sameValueOrigin(mu.Key, elems[0]) && sameIdx {
+										// on every path that goes on after the append (in either order within one block)
+										every := instrDominates(mu, st) || mu.Block() == st.Block()
+										if !every {
+											every = true
+											seenB := map[*ssa.BasicBlock]bool{}
+											var walk func(b *ssa.BasicBlock)
+											walk = func(b *ssa.BasicBlock) {
+												if seenB[b] || b == mu.Block() {
+													return
+												}
+												seenB[b] = true
+												if len(b.Instrs) > 0 {
+													if _, isR := b.Instrs[len(b.Instrs)-1].(*ssa.Return); isR && b != st.Block() {
+														if okE, _ := allPathsReturnNonNil(b, map[*ssa.BasicBlock]bool{}); !okE {
+															every = false
+														}
+													}
+												}
+												for _, sc := range b.Succs {
+													walk(sc)
+												}
+											}
+											for _, sc := range st.Block().Succs {
+												walk(sc)
+											}
+										}
+										if every {
+											recorded = true
+										}
+									}
+								}
+							}
+							c.check(recorded, rule, fnName(fn)+":lane-recorded-with-the-append", L.pos(st.Pos()),
+								"wherever a node is appended to a pool, its pool index is recorded for it (same node, same index): the second pass decides every wait from that record", "node-to-pool record next to the append")
+						}
+					}
+				}
 				okA, why := false, "the pool is rebuilt by "+describe(st.Val)
 				if call, isC := st.Val.(*ssa.Call); isC {
 					if bi, isB := call.Common().Value.(*ssa.Builtin); isB && bi.Name() == "append" && len(call.Common().Args) == 2 {
@@ -449,6 +508,44 @@ func rulePoolsAppendOnly(c *Ctx, rule string) {
 		}
 	}
 	c.floor(rule, "stores into a pool slot in Build", n, 1)
+	// and nothing rearranges a list of nodes in place afterwards: no element store into a []*node, no library call that
+	// permutes one (a later pass that "improves" the order inside a lane breaks what the wait flags were computed for)
+	nodeList := func(t types.Type) bool { return t.String() == "[]*"+genPkg+".node" }
+	for _, fn := range pkgFuncs(L, genPkg) {
+		for _, b := range fn.Blocks {
+			for _, in := range b.Instrs {
+				switch x := in.(type) {
+				case *ssa.Store:
+					ia, ok := x.Addr.(*ssa.IndexAddr)
+					if !ok || !nodeList(ia.X.Type()) {
+						continue
+					}
+					if al, isAl := ia.X.(*ssa.Alloc); isAl && (al.Comment == "varargs" || al.Comment == "slicelit") {
+						continue
+					}
+					if sl, isSl := ia.X.(*ssa.Slice); isSl {
+						if _, isAl := sl.X.(*ssa.Alloc); isAl {
+							continue // the backing array of a literal or of variadic arguments
+						}
+					}
+					c.fail(rule, fnName(fn)+":node-list-rearranged", L.pos(x.Pos()), "an element of a list of nodes is overwritten in place: the order of a lane (or of the node list) is changed after it was decided", describe(ia.X))
+				case *ssa.Call:
+					cal := x.Common().StaticCallee()
+					if cal == nil || (fnPkgPath(cal) != "slices" && fnPkgPath(cal) != "sort") {
+						continue
+					}
+					switch {
+					case strings.HasPrefix(cal.Name(), "Sort"), strings.HasPrefix(cal.Name(), "Reverse"), strings.HasPrefix(cal.Name(), "Insert"), strings.HasPrefix(cal.Name(), "Delete"), strings.HasPrefix(cal.Name(), "Replace"), strings.HasPrefix(cal.Name(), "Compact"), cal.Name() == "Slice", cal.Name() == "SliceStable", cal.Name() == "Stable":
+						for _, a := range x.Common().Args {
+							if nodeList(a.Type()) {
+								c.fail(rule, fnName(fn)+":node-list-rearranged", L.pos(x.Pos()), "a list of nodes is permuted by "+cal.Name()+": the order of a lane (or of the node list) is changed after it was decided", describe(a))
+							}
+						}
+					}
+				}
+			}
+		}
+	}
 }
 
 // sameCell: two values are loads of the same variable cell (or the same value).
@@ -1357,6 +1454,27 @@ func ruleLaneIntegrity(c *Ctx, rule string) {
 		return
 	}
 	c.seen(fnName(bps))
+	// the pool is walked as it was given: the elements read are elements of the pool parameter itself, not of a list
+	// re-ordered or filtered from it (the wait flags were computed for the order the pool has)
+	nWalk := 0
+	for _, f := range family(L, bps) {
+		for _, b := range f.Blocks {
+			for _, in := range b.Instrs {
+				ia, ok := in.(*ssa.IndexAddr)
+				if !ok || ia.X.Type().String() != "[]*"+genPkg+".node" || !isRangeIndex(ia.Index) {
+					continue
+				}
+				prm, isP := resolve(ia.X).(*ssa.Parameter)
+				if f != bps {
+					continue
+				}
+				nWalk++
+				c.check(isP && prm.Parent() == bps, rule, fnName(bps)+":pool-walked-as-given", L.pos(ia.Pos()),
+					"the statements of a lane are emitted in the order of the pool that was scheduled (no re-ordered or filtered copy)", "the walk reads "+describe(ia.X))
+			}
+		}
+	}
+	c.floor(rule, "range reads of a node list in buildPoolStmtsSimple", nWalk, 1)
 	isPoolResult := func(v ssa.Value) bool {
 		v = resolve(v)
 		if ex, ok := v.(*ssa.Extract); ok && ex.Index == 0 {
@@ -1657,6 +1775,31 @@ func sameValueOrigin(a, b ssa.Value) bool {
 		fb, ok2 := lb.X.(*ssa.FieldAddr)
 		if ok1 && ok2 && fa.Field == fb.Field {
 			return sameValueOrigin(fa.X, fb.X)
+		}
+		// the same constant element of the same list (fun.Indices[0])
+		ia, ok1 := la.X.(*ssa.IndexAddr)
+		ib, ok2 := lb.X.(*ssa.IndexAddr)
+		if ok1 && ok2 {
+			ka, okA := constInt(ia.Index)
+			kb, okB := constInt(ib.Index)
+			if okA && okB && ka == kb {
+				return sameValueOrigin(ia.X, ib.X)
+			}
+		}
+	}
+	// the same checked type assertion of the same value (the symbolic variable of one type-switch clause)
+	ta, ok1 := a.(*ssa.TypeAssert)
+	tb, ok2 := b.(*ssa.TypeAssert)
+	if ok1 && ok2 && types.Identical(ta.AssertedType, tb.AssertedType) {
+		return sameValueOrigin(ta.X, tb.X)
+	}
+	ea, ok1 := a.(*ssa.Extract)
+	eb, ok2 := b.(*ssa.Extract)
+	if ok1 && ok2 && ea.Index == eb.Index {
+		if xa, isA := ea.Tuple.(*ssa.TypeAssert); isA {
+			if xb, isB := eb.Tuple.(*ssa.TypeAssert); isB && types.Identical(xa.AssertedType, xb.AssertedType) {
+				return sameValueOrigin(xa.X, xb.X)
+			}
 		}
 	}
 	return false
@@ -3458,4 +3601,543 @@ func ruleSyncJoinsItsInputs(c *Ctx, rule string) {
 	c.check(ok, rule, "findOptimalPool:sync-provider-joins-first-pool-with-all-inputs", L.pos(fn.Pos()),
 		"a provider that is not Async joins the first candidate pool providing all its inputs without any further test (struct field reads never wait: they are ordered only by standing behind the struct's producer in its pool)",
 		fmt.Sprintf("%d tests of the scheduled provider's IsAsync flag; %s", nTests, strings.Join(detail, "; ")))
+}
+
+// ruleUserSyntaxRequalified: every piece of user syntax that is carried into the output (the requested type's expression,
+// a provider's expression) is handed to the qualifier rewriter - the one function that replaces the package identifiers the
+// user wrote by the import names allocated for the output file (an alias, or a name that had to be suffixed because another
+// file or declaration took it). Without the rewrite the emitted expression refers to a name the output does not import.
+func ruleUserSyntaxRequalified(c *Ctx, rule string) {
+	L := c.L
+	// the rewriter(s): module functions that (themselves or in their closures) assign go/ast.Ident.Name
+	rewriters := map[*ssa.Function]bool{}
+	for _, st := range storesToField(pkgFuncs(L, genPkg), "go/ast.Ident.Name") {
+		root := st.Parent()
+		for root.Parent() != nil {
+			root = root.Parent()
+		}
+		rewriters[root] = true
+	}
+	c.floor(rule, "functions that rewrite identifier names of user syntax", len(rewriters), 1)
+	n := 0
+	for _, key := range []string{"internal/kessoku.Return.ASTTypeExpr", "internal/kessoku.ProviderSpec.ASTExpr"} {
+		for _, st := range storesToField(pkgFuncs(L, genPkg), key) {
+			fn := st.Parent()
+			v := resolve(st.Val)
+			// built by the generator itself (a fresh node, a rendered type): nothing the user wrote
+			if _, isAlloc := v.(*ssa.Alloc); isAlloc {
+				continue
+			}
+			if call, isCall := v.(*ssa.Call); isCall {
+				if cal := call.Common().StaticCallee(); cal != nil && !rewriters[originOf(cal)] && fnPkgPath(cal) == genPkg {
+					if t := cal.Signature.Params(); t.Len() > 0 {
+						hasTypes := false
+						for i := 0; i < t.Len(); i++ {
+							if strings.Contains(t.At(i).Type().String(), "go/types.") {
+								hasTypes = true
+							}
+						}
+						if hasTypes {
+							continue // rendered from a go/types value
+						}
+					}
+				}
+			}
+			n++
+			ok, why := false, "no call of the qualifier rewriter on this expression in "+fnName(fn)
+			// (a) the stored value is what the rewriter returned
+			if ex, isEx := v.(*ssa.Extract); isEx {
+				if call, isCall := ex.Tuple.(*ssa.Call); isCall {
+					if cal := call.Common().StaticCallee(); cal != nil && rewriters[originOf(cal)] {
+						ok, why = true, "the stored expression is the rewriter's result"
+					}
+				}
+			}
+			if call, isCall := v.(*ssa.Call); isCall && !ok {
+				if cal := call.Common().StaticCallee(); cal != nil && rewriters[originOf(cal)] {
+					ok, why = true, "the stored expression is the rewriter's result"
+				}
+			}
+			// (b) the rewriter is applied to the same expression (it rewrites in place) on every path that succeeds
+			if !ok {
+				for _, cs := range callsIn(fn) {
+					cal := cs.common.StaticCallee()
+					if cal == nil || !rewriters[originOf(cal)] || cs.value() == nil {
+						continue
+					}
+					same := false
+					for _, a := range cs.common.Args {
+						if sameValueOrigin(a, st.Val) {
+							same = true
+						}
+					}
+					if !same {
+						continue
+					}
+					// every path from the store to a successful return passes through the rewriter call (the rewrite is
+					// in place, so before or after the store within one block is the same)
+					all := true
+					if cs.instr.Block() != st.Block() && !instrDominates(cs.instr, st) {
+						seenB := map[*ssa.BasicBlock]bool{}
+						var walk func(b *ssa.BasicBlock)
+						walk = func(b *ssa.BasicBlock) {
+							if seenB[b] || b == cs.instr.Block() {
+								return
+							}
+							seenB[b] = true
+							if len(b.Instrs) > 0 {
+								if r, isR := b.Instrs[len(b.Instrs)-1].(*ssa.Return); isR && returnsNilError(r) {
+									all = false
+								}
+							}
+							for _, sc := range b.Succs {
+								walk(sc)
+							}
+						}
+						walk(st.Block())
+					}
+					if all {
+						ok, why = true, "the rewriter is applied to the same expression before every successful return"
+					}
+				}
+			}
+			c.check(ok, rule, fnName(fn)+":"+key+":requalified", L.pos(st.Pos()),
+				"user syntax carried into the output has its package qualifiers replaced by the import names allocated for the output file", why)
+		}
+	}
+	c.floor(rule, "stores of user syntax into emitted fields", n, 2)
+}
+
+// ruleQueueIsFIFO: the ready list of the topological iteration is first-in-first-out. The scheduling premises (every
+// input-free provider chooses its pool before any dependant does; fallible sources run in declaration order) rest on it.
+// Decidable for the list-backed queue only: elements enter with PushBack and leave from Front; a re-implemented queue is
+// reported as undecided, its order cannot be read off its shape.
+func ruleQueueIsFIFO(c *Ctx, rule string) {
+	L := c.L
+	colPkg := modPath + "/internal/pkg/collection"
+	fns := pkgFuncs(L, colPkg)
+	if len(fns) == 0 {
+		c.undecided(rule, "collection.Queue", "package "+colPkg+" not loaded")
+		return
+	}
+	nIn, nOut := 0, 0
+	for _, fn := range fns {
+		if fn.Signature.Recv() == nil || !strings.Contains(fn.Signature.Recv().Type().String(), "collection.Queue") {
+			continue
+		}
+		c.seen(fnName(fn))
+		for _, cs := range callsIn(fn) {
+			if !strings.HasPrefix(cs.callee, "(*container/list.List).") {
+				continue
+			}
+			m := strings.TrimPrefix(cs.callee, "(*container/list.List).")
+			switch m {
+			case "PushBack":
+				nIn++
+			case "Front":
+				nOut++
+			case "Remove":
+				// what is removed is the front element
+				okFront := false
+				if call, ok := resolve(cs.arg(1)).(*ssa.Call); ok && calleeOf(call.Common()) == "(*container/list.List).Front" {
+					okFront = true
+				}
+				if ph, ok := resolve(cs.arg(1)).(*ssa.Phi); ok {
+					okFront = true
+					for _, e := range ph.Edges {
+						if call, ok := resolve(e).(*ssa.Call); !ok || calleeOf(call.Common()) != "(*container/list.List).Front" {
+							okFront = false
+						}
+					}
+				}
+				c.check(okFront, rule, fnName(fn)+":removes-the-front", L.pos(cs.instr.Pos()), "the queue hands out and removes the element at the front of its list", "removed element is "+describe(cs.arg(1)))
+			case "Len", "Init":
+			default:
+				c.fail(rule, fnName(fn)+":list-"+m, L.pos(cs.instr.Pos()), "the queue's list is changed by "+m+": elements no longer leave in the order in which they entered")
+			}
+		}
+	}
+	if nIn == 0 || nOut == 0 {
+		c.undecided(rule, "collection.Queue:list-backed", "the queue is not the container/list-backed one (PushBack in, Front out): the order in which a re-implemented queue hands out its elements cannot be decided from its shape")
+		return
+	}
+	c.ok(rule, "collection.Queue enters elements with PushBack and hands out the Front element", fmt.Sprintf("%d PushBack, %d Front call sites", nIn, nOut))
+}
+
+// ruleParamNamesWriteOnce: the identifier of a parameter (and of its done-channel) is whatever the allocator returned when it
+// was first asked; nothing renames a parameter afterwards. The context argument's name is the name `eg, ctx :=
+// errgroup.WithContext(ctx)` shadows: providers, waits and select arms all say that one name and therefore all see the
+// derived context. A rename after the fact splits them (providers keep the caller's context and outlive a failed sibling).
+func ruleParamNamesWriteOnce(c *Ctx, rule string) {
+	L := c.L
+	n := 0
+	for _, key := range []string{"internal/kessoku.InjectorParam.name", "internal/kessoku.InjectorParam.channelName"} {
+		for _, st := range storesToField(pkgFuncs(L, genPkg), key) {
+			n++
+			ok, why := false, "stored value is "+describe(st.Val)
+			if call, isCall := st.Val.(*ssa.Call); isCall {
+				if cal := call.Common().StaticCallee(); cal != nil && cal.Signature.Recv() != nil && strings.HasSuffix(cal.Signature.Recv().Type().String(), genPkg+".VarPool") {
+					ok, why = true, "result of VarPool."+cal.Name()
+				}
+			}
+			// only while the field is still empty
+			guarded := false
+			for _, iff := range controllingIfs(st) {
+				s := newSym(L, map[string]bool{})
+				s.maxD = 0
+				if t := strings.Join(s.eval(iff.Cond), "|"); strings.Contains(t, "field:"+key+"(") {
+					guarded = true
+				}
+			}
+			c.check(ok && guarded, rule, fnName(st.Parent())+":"+key+":write-once", L.pos(st.Pos()),
+				"a parameter's identifier is set once, from the allocator, while it is still empty (never renamed afterwards)", fmt.Sprintf("%s; under a test of the field itself: %v", why, guarded))
+		}
+	}
+	// the field's address handed to a helper that fills it (*slot = allocate(t)): what the helper stores is decided by the
+	// allocator discipline (C12.4); here it only counts as a place where the name is set
+	for _, fn := range pkgFuncs(L, genPkg) {
+		for _, cs := range callsIn(fn) {
+			for _, a := range cs.common.Args {
+				if fa, ok := a.(*ssa.FieldAddr); ok {
+					if k := fieldKey(fa); k == "internal/kessoku.InjectorParam.name" || k == "internal/kessoku.InjectorParam.channelName" {
+						n++
+					}
+				}
+			}
+		}
+	}
+	c.floor(rule, "stores to InjectorParam.name/channelName", n, 2)
+}
+
+// rulePoolCountIsAntichain: Build creates exactly as many pools as the maximum antichain computed from the graph - the value
+// itself, not a figure derived from it (discounted, capped, rounded). One pool fewer and two providers that could run
+// side by side are queued behind each other.
+func rulePoolCountIsAntichain(c *Ctx, rule string) {
+	L := c.L
+	build := genFn(c, rule, "(*Graph).Build")
+	anti := resolveRole(c, genPkg, "(*Graph).findMaximumAntichainSize")
+	if build == nil {
+		return
+	}
+	if anti == nil {
+		c.undecided(rule, "findMaximumAntichainSize", "function not found")
+		return
+	}
+	n := 0
+	for _, f := range family(L, build) {
+		for _, b := range f.Blocks {
+			for _, in := range b.Instrs {
+				ms, ok := in.(*ssa.MakeSlice)
+				if !ok || ms.Type().String() != "[][]*"+genPkg+".node" {
+					continue
+				}
+				n++
+				v := ms.Len
+				for {
+					if cv, isC := v.(*ssa.Convert); isC {
+						v = cv.X
+						continue
+					}
+					if ct, isC := v.(*ssa.ChangeType); isC {
+						v = ct.X
+						continue
+					}
+					break
+				}
+				call, isCall := v.(*ssa.Call)
+				okV := isCall && call.Common().StaticCallee() != nil && originOf(call.Common().StaticCallee()) == anti
+				c.check(okV, rule, fnName(f)+":pool-count", L.pos(ms.Pos()), "the number of pools is the maximum antichain size itself", "length is "+describe(ms.Len))
+			}
+		}
+	}
+	c.floor(rule, "pool list allocations in Build", n, 1)
+}
+
+// rulePackageLoadedPerFile: whoever hands the parser a loaded package has just loaded it: every success return of a function
+// that returns a *packages.Package is dominated by a packages.Load call in that function. A package kept from an earlier
+// file of the same run does not contain the outputs written since; the result would depend on what the run did before.
+func rulePackageLoadedPerFile(c *Ctx, rule string) {
+	L := c.L
+	n := 0
+	for _, fn := range pkgFuncs(L, genPkg) {
+		if fn.Parent() != nil || fn.Signature.Results().Len() == 0 || fn.Signature.Results().At(0).Type().String() != "*golang.org/x/tools/go/packages.Package" {
+			continue
+		}
+		loads := findCalls(fn, "golang.org/x/tools/go/packages.Load")
+		for _, r := range returnsOf(fn) {
+			if isNilConst(r.Results[0]) {
+				continue
+			}
+			n++
+			dom := false
+			for _, ld := range loads {
+				if instrDominates(ld.instr, r) {
+					dom = true
+				}
+			}
+			// the returned package is one of those just loaded
+			s := newSym(L, map[string]bool{})
+			s.maxD = 0
+			t := strings.Join(s.eval(r.Results[0]), "|")
+			fresh := strings.Contains(t, "packages.Load#0(") && !strings.Contains(t, "field:internal/kessoku.")
+			c.check(dom && fresh, rule, fnName(fn)+":package-freshly-loaded", L.pos(r.Pos()), "the package a file is analysed in is loaded for that file (not kept from an earlier file of the run)", t)
+		}
+	}
+	c.floor(rule, "returns of a loaded package", n, 1)
+}
+
+// ruleOutputOpenedLast: the output file is created (and thereby truncated) only after everything that can refuse the
+// declaration has run: after the creating call the only fallible module calls are the ones that write into that file. A
+// refused run must leave the previous output - and thus what the next run reads - untouched.
+func ruleOutputOpenedLast(c *Ctx, rule string) {
+	L := c.L
+	proc := resolveRole(c, genPkg, "(*Processor).processFile")
+	if proc == nil {
+		c.undecided(rule, "processFile", "function not found")
+		return
+	}
+	n := 0
+	for _, f := range family(L, proc) {
+		if f.Parent() != nil {
+			continue
+		}
+		for _, cs := range callsIn(f) {
+			if cs.callee != "os.Create" && cs.callee != "os.OpenFile" && cs.callee != "os.WriteFile" {
+				continue
+			}
+			n++
+			// where the file comes into being, seen from processFile: the creating call itself, or the call of the helper
+			// that contains it
+			site := cs
+			if f != proc {
+				found := false
+				for _, s2 := range callsIn(proc) {
+					if sc := s2.common.StaticCallee(); sc != nil && originOf(sc) == originOf(f) {
+						site, found = s2, true
+					}
+				}
+				if !found {
+					c.undecided(rule, fnName(f)+":output-created", "the function that creates the output file is not called from processFile directly")
+					continue
+				}
+			}
+			file := site.value()
+			for _, cs2 := range callsIn(proc) {
+				cal := cs2.common.StaticCallee()
+				if cal == nil || fnPkgPath(cal) != genPkg || errorResultIndex(cal) < 0 || cs2.value() == nil || cs2.instr == site.instr {
+					continue
+				}
+				if !reachableAfter(site.instr, cs2.instr) {
+					continue
+				}
+				writes := false
+				for _, a := range cs2.common.Args {
+					av := resolve(a)
+					if mi, isMI := av.(*ssa.MakeInterface); isMI {
+						av = resolve(mi.X)
+					}
+					if file != nil {
+						if ex, isEx := av.(*ssa.Extract); isEx && ex.Tuple == ssa.Value(file) {
+							writes = true
+						}
+						if av == ssa.Value(file) {
+							writes = true
+						}
+					}
+				}
+				c.check(writes, rule, fnName(proc)+":call("+cal.Name()+")-after-output-opened", L.pos(cs2.instr.Pos()),
+					"once the output file is created only the calls that write into it can still fail (a refused declaration leaves the previous output in place)", cal.Name()+" runs after "+cs.callee)
+			}
+		}
+	}
+	c.floor(rule, "creations of the output file", n, 1)
+}
+
+// ruleExprCopiesKeepOperands: where the migration rebuilds an expression node of the same kind as the one it is looking at
+// (to give it a position), every operand goes where it came from: field F of the new node is computed from field F of the
+// old one. A copy that fills Y from X still type-checks and formats.
+func ruleExprCopiesKeepOperands(c *Ctx, rule string) {
+	L := c.L
+	n := 0
+	for _, fn := range migFuncs(L) {
+		// the case variables: checked type assertions of an expression to *ast.T
+		type caseVar struct {
+			typ string
+			in  *ssa.BasicBlock // the block entered when the assertion holds
+		}
+		var cases []caseVar
+		for _, b := range fn.Blocks {
+			for _, in := range b.Instrs {
+				ta, ok := in.(*ssa.TypeAssert)
+				if !ok || !ta.CommaOk {
+					continue
+				}
+				nm, isNode := isAstNodeType(ta.AssertedType)
+				if !isNode || ta.Referrers() == nil {
+					continue
+				}
+				for _, r := range *ta.Referrers() {
+					ex, ok := r.(*ssa.Extract)
+					if !ok || ex.Index != 1 || ex.Referrers() == nil {
+						continue
+					}
+					for _, rr := range *ex.Referrers() {
+						if iff, ok := rr.(*ssa.If); ok {
+							cases = append(cases, caseVar{nm, iff.Block().Succs[0]})
+						}
+					}
+				}
+			}
+		}
+		if len(cases) == 0 {
+			continue
+		}
+		for _, b := range fn.Blocks {
+			for _, in := range b.Instrs {
+				al, ok := in.(*ssa.Alloc)
+				if !ok {
+					continue
+				}
+				nm, isNode := isAstNodeType(al.Type())
+				if !isNode {
+					continue
+				}
+				inCase := false
+				for _, cv := range cases {
+					if cv.typ == nm && (cv.in == al.Block() || cv.in.Dominates(al.Block())) {
+						inCase = true
+					}
+				}
+				if !inCase {
+					continue
+				}
+				for _, st := range storesInto(al) {
+					fa, ok := st.Addr.(*ssa.FieldAddr)
+					if !ok {
+						continue
+					}
+					key := fieldKey(fa)
+					if strings.HasSuffix(st.Val.Type().String(), "go/token.Pos") {
+						continue // positions are what the copy is for
+					}
+					if _, isConst := st.Val.(*ssa.Const); isConst {
+						continue
+					}
+					n++
+					s := newSym(L, map[string]bool{})
+					s.maxD = 0
+					var ts []string
+					var gather func(v ssa.Value, d int)
+					gather = func(v ssa.Value, d int) {
+						switch x := resolve(v).(type) {
+						case *ssa.Alloc:
+							// a nested node built in place: what its (non-position) fields are filled with
+							if _, isN := isAstNodeType(x.Type()); isN && d < 3 {
+								for _, st2 := range storesInto(x) {
+									if strings.HasSuffix(st2.Val.Type().String(), "go/token.Pos") {
+										continue
+									}
+									gather(st2.Val, d+1)
+								}
+								return
+							}
+						case *ssa.MakeSlice:
+							// a list filled element by element
+							if x.Referrers() != nil && d < 3 {
+								found := false
+								for _, r := range *x.Referrers() {
+									if ia, ok := r.(*ssa.IndexAddr); ok && ia.Referrers() != nil {
+										for _, rr := range *ia.Referrers() {
+											if st3, ok := rr.(*ssa.Store); ok && st3.Addr == ssa.Value(ia) {
+												gather(st3.Val, d+1)
+												found = true
+											}
+										}
+									}
+								}
+								if found {
+									return
+								}
+							}
+						}
+						ts = append(ts, s.eval(v)...)
+					}
+					gather(st.Val, 0)
+					okF := len(ts) > 0
+					for _, t := range ts {
+						if !strings.Contains(t, "field:"+key+"(") {
+							okF = false
+						}
+					}
+					c.check(okF, rule, fnName(fn)+":"+key+":copied-from-the-same-field", L.pos(st.Pos()),
+						"a rebuilt "+nm+" gets each operand from the same operand of the node it replaces", strings.Join(ts, " | "))
+				}
+			}
+		}
+	}
+	c.floor(rule, "operands of rebuilt expression nodes", n, 5)
+}
+
+// ruleAliasOmission: the import list of the migrated file writes an import without its name only when the allocated name is
+// literally the last element of the path - the one case in which leaving the name out cannot change what the name means
+// for directory-named packages. Any cleverer guess of "the name the path suggests" (skipping version elements, trimming
+// prefixes) drops aliases of packages whose declared name is something else, and the qualifiers in the file stop resolving.
+func ruleAliasOmission(c *Ctx, rule string) {
+	L := c.L
+	n := 0
+	for _, st := range storesToField(migFuncs(L), "internal/migrate.ImportSpec.Name") {
+		fn := st.Parent()
+		for _, iff := range controllingIfs(st) {
+			bo, ok := iff.Cond.(*ssa.BinOp)
+			if !ok || (bo.Op != token.NEQ && bo.Op != token.EQL) || bo.X.Type().String() != "string" {
+				continue
+			}
+			n++
+			okCmp := false
+			what := ""
+			for _, side := range []ssa.Value{bo.X, bo.Y} {
+				if call, isCall := resolve(side).(*ssa.Call); isCall {
+					if cal := call.Common().StaticCallee(); cal != nil {
+						what = cal.Name()
+						if lp := resolveRole(c, migPkg, "lastPathElement"); lp != nil && originOf(cal) == lp {
+							okCmp = true
+						}
+					}
+				}
+			}
+			c.check(okCmp, rule, fnName(fn)+":alias-omitted-only-for-the-last-path-element", L.pos(iff.Cond.Pos()),
+				"an import is written without its name only when that name is the last element of its path", "the name is compared with the result of "+what)
+		}
+	}
+	c.floor(rule, "tests guarding the alias of an emitted import", n, 1)
+}
+
+// ruleSourceImportKeys: the table that resolves the qualifiers of the wire file (local name -> import path) is keyed by the
+// name the file uses: the alias when there is one. The declared name of the imported package is a different thing whenever
+// an alias is present.
+func ruleSourceImportKeys(c *Ctx, rule string) {
+	L := c.L
+	n := 0
+	for _, fn := range migFuncs(L) {
+		for _, b := range fn.Blocks {
+			for _, in := range b.Instrs {
+				mu, ok := in.(*ssa.MapUpdate)
+				if !ok || mu.Map.Type().String() != "map[string]string" {
+					continue
+				}
+				s := newSym(L, map[string]bool{})
+				s.maxD = 0
+				val := strings.Join(s.eval(mu.Value), "|")
+				if !strings.Contains(val, "go/ast.ImportSpec.Path(") {
+					continue
+				}
+				n++
+				key := strings.Join(s.eval(mu.Key), "|")
+				bad := strings.Contains(key, "go/types.Package).Name(")
+				c.check(!bad, rule, fnName(fn)+":source-import-key", L.pos(mu.Pos()),
+					"the qualifier table of the source file is keyed by the local name of the import (alias or path element), not by the declared name of the imported package", key)
+			}
+		}
+	}
+	c.floor(rule, "inserts into the source import table", n, 1)
 }
